@@ -186,6 +186,9 @@ def plan(prop, tier):
         P += S("release", "sets", n=300 if q else 4000, shards=2)
         P += S("release", "chains", shards=2, stride=40 if q else 6)
         P += S("release", "limits", n=100 if q else 1000)
+        # lifetimes only (no contents / layout rules): a double drop that is the late consequence
+        # of another defect is not masked by the rule that catches that defect first
+        P += S("release", "hist", n=3000 if q else 20000, shards=2, profile="drops", ledger_only=1)
         P += S("miri", "hist", n=5 if q else 40, shards=3 if q else 8, profile="drops", timeout=3000, leaks_ok=True)
     elif prop == "C07":
         P += S("release", "fault", n=200 if q else 7000, shards=8 if q else 12, timeout=5400)
